@@ -346,6 +346,7 @@ pub fn oracle(c: &Case) -> Verdict {
             Some(DType::I64) => "input:declared-i64",
             Some(DType::Bool) => "input:declared-bool",
             Some(DType::F32) => "input:f32",
+            Some(DType::F64) => "input:declared-f64",
             Some(DType::I32) => "input:i32",
             Some(DType::U8) => "input:u8",
             Some(DType::I8) => "input:i8",
